@@ -358,6 +358,21 @@ func runThr(w *core.Worker, c ThrCase) {
 			time.Sleep(3*P + time.Millisecond)
 			wg.Wait()
 			synctest.Wait()
+			// "future Next": triggers that arrive after Cancel (and a trailing timer armed before
+			// it) must not revive the throttle - Next keeps returning false at once.
+			for k := 0; k < 2; k++ {
+				th.Call()
+				time.Sleep(P/3 + 7*us)
+				in := time.Since(t0)
+				ok := th.Next()
+				out := time.Since(t0)
+				if ok {
+					fail("permission-after-cancel", "Next called at +%v (Cancel was at +%v, a Call arrived after it) returned true", in, cancelAt)
+				} else if out != in {
+					fail("cancel-not-prompt", "Next called at +%v after Cancel (+%v) returned false only at +%v", in, cancelAt, out)
+				}
+				time.Sleep(2*P + 3*us)
+			}
 
 			mu.Lock()
 			defer mu.Unlock()
@@ -442,7 +457,7 @@ func runThr(w *core.Worker, c ThrCase) {
 func TestProp(t *testing.T) {
 	r := core.Start(t, "C20")
 	defer r.Finish()
-	r.Rule("all inside testing/synctest bubbles (-race build), timestamps are exact virtual instants. delay: Delay(d) with Stop at instants around d: not before d, once, not after Stop, does run otherwise. debounce: scripts of call / burst of 3 concurrent calls / cancel with gaps below and above the wait (never equal): a function runs iff no call or cancel follows within the wait, exactly one per burst, never sooner than wait after the latest call. throttle: scripts of Call / burst of 3 concurrent Calls with gaps around the period, consumer goroutines looping on Next (always waiting, late, with simulated work, two consumers), Cancel at the end: permissions >= one period apart, each preceded by a trigger since the previous one (trailing off: by one that came >= a period later), trailing on: at every quiescent point a waiting Next has been served once trigger and period are due, after Cancel every Next returns false with zero virtual time elapsed; non-trivial = >= 2 events; distinct by hash of the case without the repetition index")
+	r.Rule("all inside testing/synctest bubbles (-race build), timestamps are exact virtual instants. delay: Delay(d) with Stop at instants around d: not before d, once, not after Stop, does run otherwise. debounce: scripts of call / burst of 3 concurrent calls / cancel with gaps below and above the wait (never equal): a function runs iff no call or cancel follows within the wait, exactly one per burst, never sooner than wait after the latest call. throttle: scripts of Call / burst of 3 concurrent Calls with gaps around the period, consumer goroutines looping on Next (always waiting, late, with simulated work, two consumers), Cancel at the end: permissions >= one period apart, each preceded by a trigger since the previous one (trailing off: by one that came >= a period later), trailing on: at every quiescent point a waiting Next has been served once trigger and period are due, after Cancel every Next returns false with zero virtual time elapsed, also after further Calls; non-trivial = >= 2 events; distinct by hash of the case without the repetition index")
 
 	core.Monitor(r, "delay", 0, func(emit func(DelayCase)) {
 		for _, d := range []int{5000, 20000, 50000} {
